@@ -2,7 +2,7 @@
    ExtrOcamlBasic only (bool, option, list, prod, unit, sumbool mapped to the
    OCaml types); Z / positive / N / nat stay the extracted inductive types. *)
 From Coq Require Import Extraction ExtrOcamlBasic.
-From LNC Require Import GoLite MessagesGen QueueGen SyncerGen MsgDataGen SidGen Codec Gbn GbnMonitor.
+From LNC Require Import GoLite MessagesGen QueueGen SyncerGen MsgDataGen SidGen Codec Gbn GbnMonitor GbnHandshake.
 
 Extraction Language OCaml.
 Set Extraction KeepSingleton.
@@ -11,4 +11,5 @@ Extraction "lnc_model.ml"
   Deserialize Message_Serialize MsgData_Serialize MsgData_decode MsgData_Deserialize
   containsSequence queue_size queue_addPacket queue_processACK queue_processNACK
   syncer_initResendUpTo GetSID
-  dstep drun dinit mstep minit mrun split_msg.
+  dstep drun dinit mstep minit mrun split_msg
+  classify s_observe c_observe s_obs_init c_obs_init hstep hrun hinit.
